@@ -1,7 +1,7 @@
 /- C20 helpers: progress (the consumer does not stall) -/
 import Iggy.Sdk.Lemmas.Steps
 namespace Iggy.Sdk
-variable {cfg : CCfg} {pid : Nat} {strat0 : Strat} {srv0 : Srv}
+variable {rew : Bool} {cfg : CCfg} {pid : Nat} {strat0 : Strat} {srv0 : Srv}
 
 /-- a fresh consumer polls and the server has the message asked for: it is yielded -/
 theorem poll_fresh_obs (cfg : CCfg) (pid : Nat) (strat0 : Strat) (c : Cons) (s : Srv)
@@ -90,7 +90,7 @@ theorem poll_going_sync (cfg : CCfg) (hrep : cfg.replay = false) (pid : Nat) (st
       List.append_nil]
     exact ⟨_, rfl⟩
 theorem no_stall_inv (hg : Good cfg .next) (hm : ConsumeMode cfg ∨ cfg.polling = true)
-    {sys : Sys} {tr : List Obs} (h : Inv cfg pid .next srv0 sys tr)
+    {sys : Sys} {tr : List Obs} (h : Inv false cfg pid .next srv0 sys tr)
     (hp : sys.1.pending = []) (hb : sys.1.buffered = []) (hw : wanted pid sys < sys.2.len) :
     (∃ r, (step cfg pid .next sys .poll).2 = [.polled sys.2.stored r, .yield ⟨pid, msgAt (wanted pid sys)⟩]) ∨
     (∃ r b' r', (step cfg pid .next sys .poll).2 = [.polled sys.2.stored r, .store (wanted pid sys - 1) true] ∧
@@ -129,7 +129,7 @@ theorem no_stall_inv (hg : Good cfg .next) (hm : ConsumeMode cfg ∨ cfg.polling
     · right
       have hbatch := hg.batch
       rcases hm with hm | hpol
-      · obtain ⟨v, hv, hor⟩ := hC trivial hm
+      · obtain ⟨v, hv, hor⟩ := hC trivial trivial hm
         have hlag : (c.stored.get? pid).getD 0 < a + n := by
           simp only [hv, OffMap.get?_single, Option.getD_some]
           rcases hor with ⟨hv0, hK⟩ | hsv
@@ -152,7 +152,7 @@ theorem no_stall_inv (hg : Good cfg .next) (hm : ConsumeMode cfg ∨ cfg.polling
           (a + n) hc hb (by simp [hst, Srv.start, resume]) (by simp [hst, Srv.start, resume]; omega)
         obtain ⟨r', h2⟩ := h2
         exact ⟨r, _, r', rfl, h2⟩
-      · obtain ⟨_, _, so, hso', hle⟩ := hP trivial hpol
+      · obtain ⟨_, _, so, hso', hle⟩ := hP trivial trivial hpol
         rw [hstart, hso'] at hreach
         simp only [resume] at hreach
         omega
@@ -161,7 +161,7 @@ theorem no_stall_reach (hg : Good cfg .next) (hm : ConsumeMode cfg ∨ cfg.polli
     {sys : Sys} {tr : List Obs} (hr : Reach cfg pid .next srv0 sys tr)
     (hp : sys.1.pending = []) (hb : sys.1.buffered = []) (hw : wanted pid sys < sys.2.len) :
     Obs.yield ⟨pid, msgAt (wanted pid sys)⟩ ∈ (run cfg pid .next sys [.poll, .poll]).2 := by
-  have h := hr.inv hg
+  have h := hr.inv (rew := false) hg
   simp only [run, List.append_nil]
   rcases no_stall_inv hg hm h hp hb hw with ⟨r, e⟩ | ⟨r, b', r', e1, e2⟩
   · rw [e]; simp
@@ -194,7 +194,7 @@ theorem fresh_step_yield (hg : Good cfg strat0) (c : Cons) (s : Srv)
       simp only [onPolled_cons cfg _ ⟨pid, s.len - 1, (List.range' st (k + 1)).map msgAt⟩ _ _ hcons] at hy
       simpa using hy
 
-theorem lastYield_none_fresh {sys : Sys} {tr : List Obs} (h : Inv cfg pid strat0 srv0 sys tr)
+theorem lastYield_none_fresh {sys : Sys} {tr : List Obs} (h : Inv rew cfg pid strat0 srv0 sys tr)
     (hl : lastYield tr = none) :
     sys.1.consumed = [] ∧ sys.1.buffered = [] ∧ sys.1.pending = [] ∧ sys.1.stored = [] ∧ sys.1.strat = strat0 := by
   cases h.phase with
@@ -205,7 +205,7 @@ theorem first_yield_state (hg : Good cfg strat0) {sys : Sys} {tr : List Obs}
     (hr : Reach cfg pid strat0 srv0 sys tr) (hl : lastYield tr = none) (e : Ev) (y : Yield)
     (hy : Obs.yield y ∈ (step cfg pid strat0 sys e).2) :
     e = .poll ∧ y = ⟨pid, msgAt (firstOff strat0 sys.2.stored)⟩ := by
-  obtain ⟨hc, hb, hp, hs, hst⟩ := lastYield_none_fresh (hr.inv hg) hl
+  obtain ⟨hc, hb, hp, hs, hst⟩ := lastYield_none_fresh (hr.inv (rew := false) hg) hl
   obtain ⟨c, s⟩ := sys
   exact fresh_step_yield hg c s hc hb hp hs hst e y hy
 end Iggy.Sdk
